@@ -789,3 +789,7 @@ package constraint
 //@   props C03 C08
 //@   nopanic
 //@   ensures fresh(result) && len(result.innerTypeNames) == 0 && len(result.typeNames) == 0 && len(result.elementASTNodes) == 0
+//@ func (AdditionalProperties).SchemaType()
+//@   props C01
+//@   pure
+//@   ensures result == c.schemaType
